@@ -264,13 +264,24 @@ def make_points(cloud):
 def make_fpath(pts, lit):
     seq = [pts[lit[0]]]
     for v, i in lit[1]:
+        # a velocity whose value is a whole number may be written with an integer type (1480, np.int64(5900)): same number
+        # (a numpy integer scalar promotes float32 times to float64 -- values unchanged --, so that spelling is kept for
+        #  the default float64 solver, where the dtype of the answer is also checked)
+        if float(v).is_integer() and _vel_spelling[0] % 3 != 0:
+            v = int(v) if (_vel_spelling[0] % 3 == 1 or not _vel_spelling[1]) else np.int64(int(v))
+        _vel_spelling[0] += 1
         seq += [v, pts[i]]
     return ray.FermatPath(tuple(seq))
 
 
+_vel_spelling = [0, True]
+
+
 def impl_solve(cloud, group, dtype=None, as_set=False):
     pts = make_points(cloud)
+    _vel_spelling[1] = dtype is None
     fps = [make_fpath(pts, lit) for lit in group]
+    _vel_spelling[1] = True
     arg = set(fps) if as_set else tuple(fps)
     kw = {} if dtype is None else {"dtype": dtype}
     res = ray.FermatSolver(arg, **kw).solve()
